@@ -531,6 +531,12 @@ func init() {
 	}
 	reg("crypto/rand.Read crypto/internal/sysrand.Read math/rand.Read", fill)
 	reg("(crypto/internal/rand.reader).Read (*crypto/internal/rand.reader).Read", fill)
+	// neo-go transaction hash (streaming SHA-256 over the encoded transaction):
+	// modelled as the zero hash; it feeds logging and nonce seeds only. A replay
+	// whose outcome depended on it would not confirm natively.
+	reg("(*github.com/nspcc-dev/neo-go/pkg/core/transaction.Transaction).createHash", func(in *Interp, fr *frame, fn *ssa.Function, args []Value) Value {
+		return nilErr()
+	})
 	reg("github.com/google/uuid.New github.com/google/uuid.Must", func(in *Interp, fr *frame, fn *ssa.Function, args []Value) Value {
 		if fn.Name() == "Must" {
 			return args[0]
